@@ -150,7 +150,8 @@ ADDENDA = {
            'C07_root_spans_exact (one span per item for bracket-balanced items without a top-level comma; (rootSpans s).isOk = Balanced s), C07_span_kinds (aN, a[N], a.name, bare identifiers, star markers, a[literal], `expr AS name` for EVERY expr), '
            'C07_span_info_sound (inversion: a non-null info correctly names its column - the guarantee stated in the source comment), C07_unquote_escaped_full (unquote_string undoes js_string_escape_column_name for EVERY name, after the repair D20), '
            'C07_text_to_header_width / C07_text_header_matches_records: the hypothesis `aligned items infos` of C07_header_matches_records is DISCHARGED from the item texts for the JS port. Defects D19 (tuple item, Python) and D20 (control-character escapes, JS) found by these proofs/ties and fixed. ',
-    'C09': 'ADAPTERS: get_variables_map of the REAL pandas, CSV (py and js) and sqlite iterators tied to Model/Variables.lean iteratorVariablesMap (which passes run, in which order, under which condition). NAMED variables of both tables in the header-flag x WITH-modifier matrix. '
+    'C09': 'PASS ORDER PROVED IRRELEVANT: C09_csv_pass_order_irrelevant (the CSV adapters run the attribute pass before the dictionary pass: every variable is bound to the same column as in the table order, and one order fails iff the other does), C09_adapters_agree_on_bindings, '
+           'C09_positional_variables_survive_named_passes / C09_array_variables_survive_named_passes (with the direct-mode counterexample). ADAPTERS: get_variables_map of the REAL pandas, CSV (py and js) and sqlite iterators tied to Model/Variables.lean iteratorVariablesMap (which passes run, in which order, under which condition). NAMED variables of both tables in the header-flag x WITH-modifier matrix. '
            'VARIABLE BINDING on the real algorithms (Model/Variables.lean: parse_dictionary_variables, parse_attribute_variables, map_variables_directly, ensure_no_ambiguous_variables, generate_init_statements; tied to both ports): '
            'C09_dict_no_false_negative (the "probably has" heuristic never misses a referenced column: every name segment survives the escaping), C09_dict_variable_binds_position, C09_attribute_variable_binds_position, C09_attribute_unknown_column_fails, '
            'C09_attr_duplicate_names_diverge (Python last / rbql.js first column of a duplicated name), C09_init_assignments_cover, C09_direct_variable_bound, C09_ambiguous_detected. VARIABLE DISCOVERY: C09_basic_vars_iff: n is reported by parse_basic_variables (model) IFF `a<n>` occurs delimited by non-word characters (sound AND complete); C09_array_vars_sound / _complete (with the counterexample `a[1]a[2]`); C09_var_not_inside_identifier. Tied to both ports. ',
@@ -162,7 +163,8 @@ ADDENDA = {
            'C04_record_numbers_swapped_counterexample (`bNR == NR` is refused), C04_ambiguous_key_refused, C04_resolved_key_lists_have_equal_length (one entry per pair, in order: the join well-formedness hypothesis of the rbql.js refinement holds for every parsed query). ',
     'C08': 'JAVASCRIPT PORT: the rbql.js literal scanner is modelled (separateLiteralsJs) and tied on every string of length <= 7 over {\' " \\ a `}; C08_js_literals_reassemble, C08_js_literal_closes_after_escaped_backslash (regression theorem of defect D23, fixed: '
            '`\'a\\\\\' where …` swallowed the next clause), C08_js_literals_extracted, C08_js_literal_contents_opaque(_for_the_parse), C08_js_agrees_with_python_on_common_literals, counterexamples for every side condition and for the real differences (back-ticks, line feeds, triple quotes). ',
-    'C13': 'FRONT DOOR OF THE COMMAND LINE modelled (Model/Cli.lean cliDoor: --version / --color / --output / --policy / --delim / --query) and tied on all 800 combinations to the real process '
+    'C13': 'JOIN TABLE NAMES: find_table_path modelled over an abstract file system (Model/TablePath.lean; C13_table_path_exists, C13_table_path_is_a_candidate, C13_table_path_prefers_the_name_itself) and tied to the real function over real directory trees. '
+           'FRONT DOOR OF THE COMMAND LINE modelled (Model/Cli.lean cliDoor: --version / --color / --output / --policy / --delim / --query) and tied on all 800 combinations to the real process '
            '(refusals = Error [generic] on stderr, exit 1, empty stdout; a run = byte for byte what query_csv writes for the dialect the model names): C13_cli_runs_iff, C13_cli_noninteractive_runs_or_refuses, C13_cli_run_dialect, C13_cli_monocolumn_needs_no_delim. '
            'ENCODINGS ON THE COMMAND LINE: non-ASCII tables under --encoding utf-8 / latin-1 x PYTHONIOENCODING x {file->file, file->stdout, stdin->stdout}: the bytes written are the query_table result in the requested encoding; LONE-STAR JOIN battery through every entry point. '
            'COMMAND LINE: which dialects `python -m rbql` hands to query_csv is modelled (Model/Cli.lean: cliDialects) and tied to the REAL run_with_python_csv (query_csv replaced by a recorder) for 25 delimiter spellings x {no policy, 5 policies} x {input, csv, tsv}: '
